@@ -94,10 +94,18 @@ def _rec(cls, resid):
 # ------------------------------------------------------------------------------------------
 # toqito wrappers
 # ------------------------------------------------------------------------------------------
+def _arr(j):
+    """fresh array handed to toqito: real dtype when every entry is real (the library must not care which)"""
+    a = np.array(j, dtype=complex)
+    if not np.any(a.imag):
+        return np.array(a.real, dtype=float)
+    return a
+
+
 def _cbtn(j):
     from toqito.channel_metrics import completely_bounded_trace_norm
 
-    a = np.array(j, dtype=complex)
+    a = _arr(j)
     v = completely_bounded_trace_norm(a)
     _unchanged("completely_bounded_trace_norm", (a, j))
     return _scalar(v, "completely_bounded_trace_norm")
@@ -106,7 +114,7 @@ def _cbtn(j):
 def _dd(j1, j2):
     from toqito.channel_metrics import diamond_distance
 
-    a1, a2 = np.array(j1, dtype=complex), np.array(j2, dtype=complex)
+    a1, a2 = _arr(j1), _arr(j2)
     v = diamond_distance(a1, a2)
     _unchanged("diamond_distance", (a1, j1), (a2, j2))
     return _scalar(v, "diamond_distance")
@@ -115,7 +123,7 @@ def _dd(j1, j2):
 def _cbsn(j):
     from toqito.channel_metrics import completely_bounded_spectral_norm
 
-    a = np.array(j, dtype=complex)
+    a = _arr(j)
     v = completely_bounded_spectral_norm(a)
     _unchanged("completely_bounded_spectral_norm", (a, j))
     return _scalar(v, "completely_bounded_spectral_norm")
@@ -146,7 +154,7 @@ def _cf(j1, j2):
     with warnings.catch_warnings(record=True) as rec:
         warnings.simplefilter("always")
         try:
-            a1, a2 = np.array(j1, dtype=complex), np.array(j2, dtype=complex)
+            a1, a2 = _arr(j1), _arr(j2)
             v = channel_fidelity(a1, a2)
             _unchanged("channel_fidelity", (a1, j1), (a2, j2))
         except ValueError as e:
@@ -733,6 +741,31 @@ def check_fos_product(case):
     req(abs(val - 1) <= TOL_CVXOPT, f"channel fidelity of separability of a pure tripartite product state (k={case['k']}) = {val:.9g}", "fos:product_not_1")
 
 
+@st.composite
+def _fos_dims_case(draw):
+    dims = draw(st.sampled_from([[3, 2, 2], [2, 3, 2], [2, 2, 3], [3, 2, 3]]))
+    return {"dims": dims, "seeds": [draw(gen.SEED) for _ in range(3)], "basis": [draw(st.booleans()) for _ in range(3)], "k": 1 if dims == [3, 2, 3] else draw(st.integers(1, 2)), "real": draw(st.booleans())}
+
+
+def check_fos_product_dims(case):
+    """pure product states on unequal local dimensions (added after seeded change C20-t2 - a dimension list reversed at
+    the wrong moment, invisible for equal dimensions and for computational-basis factors - was missed)"""
+    from toqito.channel_metrics import fidelity_of_separability
+
+    kets = []
+    for d, s_, b in zip(case["dims"], case["seeds"], case["basis"]):
+        if b:
+            v = np.zeros(d, dtype=complex)
+            v[s_ % d] = 1
+        else:
+            v = gen.rand_ket(s_, d, case["real"])
+        kets.append(np.asarray(v, dtype=complex).reshape(-1, 1))
+    v = ref.kron_all(kets)[:, 0]
+    rho = np.outer(v, v.conj())
+    val = _scalar(fidelity_of_separability(rho, list(case["dims"]), k=case["k"]), "fidelity_of_separability")
+    req(abs(val - 1) <= TOL_CVXOPT, f"channel fidelity of separability of a pure product state on dims {case['dims']} (k={case['k']}) = {val:.9g}", "fos:product_not_1")
+
+
 def nt_fos(case):
     return f"fos:k={case['k']}" if any(k["k"] == "seed" for k in case["kets"]) else None
 
@@ -843,5 +876,6 @@ SUBCHECKS = [
     SubCheck("cf_unitary_closed_form", check_cf_unitary, _cf_unitary_case, nt_unitary_pair, quick=64, thorough=640, case_timeout=90),
     SubCheck("cf_every_dimension", check_cf_unitary, None, lambda c: f"cf_dim:d={c['d']}", cases=_cf_dim_cases, case_timeout=90, shards=4),
     SubCheck("fos_pure_product", check_fos_product, _fos_case, nt_fos, quick=64, thorough=640, case_timeout=30, shards=8),
+    SubCheck("fos_product_unequal_dims", check_fos_product_dims, _fos_dims_case, lambda c: f"dims={c['dims']},k={c['k']}" if not all(c["basis"]) else None, quick=48, thorough=480, case_timeout=90),
     SubCheck("fos_rejects", check_fos_rejects, _fos_reject_case, nt_fos_reject, quick=200, thorough=2000, case_timeout=60, shards=4),
 ]
